@@ -141,3 +141,23 @@ ILL_AUTOMATON = ["", "initial", "q0 q1", "states q0\ninitial q0 q1\nfinal q0", "
 ILL_CFG = ["", "S ->", "-> a", "S -> a | | b", "S => a", "S -> a ; b", "S - > a", "S -> (a)"]
 ILL_REGEXP = ["(a+b", "a+*b", "a++b", "((", ")a(", "a+", "", "*a", "a b )", "(a+b))"]
 ILL_FORMED = {"dfa": ILL_AUTOMATON, "nfa": ILL_AUTOMATON, "pda": ILL_AUTOMATON, "tm": ILL_AUTOMATON, "cfg": ILL_CFG, "regexp": ILL_REGEXP}
+
+
+@st.composite
+def late_difference_pair(draw):
+    """Two small DFAs whose shortest distinguishing word is longer than either state count (but shorter than their sum):
+    'number of a's = r (mod p)' against 'exactly r a's' (p and r+2 states, first difference a^(r+p)).  Over {a} or {a,b} with b ignored.
+    Returns (reference, answer, length of the shortest distinguishing word)."""
+    p = draw(st.integers(2, 5))
+    r = draw(st.integers(1, p - 1)) if p > 2 else 1
+    S = draw(st.sampled_from([["a"], ["a", "b"]]))
+    pre = draw(st.sampled_from(["q", "s", "m"]))
+    Qm = ["%s%d" % (pre, i) for i in range(p)]
+    dm = [[Qm[i], "a", Qm[(i + 1) % p]] for i in range(p)] + [[q, "b", q] for q in Qm if "b" in S]
+    mod = {"Q": Qm, "S": S, "d": dm, "q0": Qm[0], "F": [Qm[r]], "eps": None}
+    Qe = ["c%d" % i for i in range(r + 2)]
+    de = [[Qe[i], "a", Qe[min(i + 1, r + 1)]] for i in range(r + 2)] + [[q, "b", q] for q in Qe if "b" in S]
+    exact = {"Q": Qe, "S": S, "d": de, "q0": Qe[0], "F": [Qe[r]], "eps": None}
+    if draw(st.booleans()):
+        return mod, exact, r + p
+    return exact, mod, r + p
